@@ -86,7 +86,9 @@ func (u *Unit) cutLoop(st *State, fr *Frame, b *ssa.BasicBlock, lc *LoopContract
 	// cover: the invariants together with the state must be satisfiable (non-vacuity)
 	u.cover(st, fmt.Sprintf("%s#cover:loop%d", fnKey(u.fn), lc.Ord))
 	if lc.Cases != nil {
-		return u.splitCases(st, fr, b, lc)
+		if !u.markCases(st, fr, b, lc) {
+			return nil
+		}
 	}
 	return u.run(st, fr, b, 0)
 }
@@ -585,6 +587,29 @@ func (e *Engine) fnAllocates(fn *ssa.Function, depth int) bool {
 		}
 	}
 	return false
+}
+
+// markCases records a proof-by-cases hint: obligations raised after this cut point may be discharged once per
+// value of a small-range local (plus the out-of-range case, which makes the case list complete).
+func (u *Unit) markCases(st *State, fr *Frame, b *ssa.BasicBlock, lc *LoopContract) bool {
+	env := u.invEnv(st, fr, b)
+	id, ok := lc.Cases.Expr.(*ast.Ident)
+	if !ok {
+		u.specError(fmt.Sprintf("loop %d cases", lc.Ord), fmt.Errorf("cases wants a local variable"))
+		return false
+	}
+	cell, ok := env.cells[lc.Cases.Info.Uses[id].Pos()]
+	if !ok {
+		u.specError(fmt.Sprintf("loop %d cases", lc.Ord), fmt.Errorf("%s is not a local variable", id.Name))
+		return false
+	}
+	cur, ok := st.objs[fr.regs[cell].(PtrV).Obj].(IntV)
+	if !ok || !cur.T.IsInt() {
+		u.specError(fmt.Sprintf("loop %d cases", lc.Ord), fmt.Errorf("%s is not an int", id.Name))
+		return false
+	}
+	st.caseTerm, st.caseLo, st.caseHi = cur.T, lc.CaseLo, lc.CaseHi
+	return true
 }
 
 // splitCases continues from a loop head once per value of a small-range local (proof by cases): the
